@@ -5,6 +5,7 @@ Property theorems only (helper lemmas: KlogV/Lemmas/Calendar.lean).
 import KlogV.Lemmas.Calendar
 import KlogV.Lemmas.Patterns
 import KlogV.Props.Tables
+import KlogV.Props.Rx.Periods
 namespace KlogV.C15
 
 /-- The day after a valid date has the next day number. -/
